@@ -72,6 +72,7 @@ def units(tier):
     n = 32 if tier == 'quick' else 128
     for sh in range(n):
         out.append({'fam': 'raw', 'tier': tier, 'depth': d, 'shard': [sh, n]})
+    out.append({'fam': 'raw', 'tier': tier, 'depth': 5, 'shard': [0, 1], 'keys': [2, 130]})
     L = 5 if tier == 'quick' else 6
     for sh in range(8):
         out.append({'fam': 'plain', 'tier': tier, 'L': L, 'shard': [sh, 8]})
@@ -85,7 +86,7 @@ def cases(unit):
     fam = unit['fam']
     if fam == 'raw':
         sh, n = unit['shard']
-        for i, seq in enumerate(spaces.wf_sequences([0, 1], [1, 2], unit['depth'])):
+        for i, seq in enumerate(spaces.wf_sequences(unit.get('keys', [0, 1]), [1, 2], unit['depth'])):
             if i % n == sh:
                 yield {'fam': 'raw', 'tier': unit['tier'], 'events': [list(e) for e in seq]}
     elif fam == 'plain':
